@@ -100,3 +100,21 @@ void h_copyarray_str(void) {
   VASSERT(g[1 + k] == 0, "always NUL-terminated inside char[4]"); VASSERT(g[0] == 0xA5 && g[5] == 0xA5, "nothing outside the destination is written");
   if (n > 3) VWITNESS("truncated"); else VWITNESS("fits");
 }
+
+/* ---- C14/C06: two copied strings of 2 symbolic bytes each; equal ones are stored once; removing the first user leaves the second intact */
+void h_shared_strings(void) {
+#ifndef EQ
+#define EQ 1
+#endif
+  /* whether the two strings are equal is part of the shape (it decides the heap layout): first byte concrete, second symbolic */
+  uint8_t x = vin_u8(); uint8_t s[2] = {'a', x}, t[2] = {EQ ? 'a' : 'b', EQ ? x : vin_u8()};
+  struct S_Shr o; memset(&o, 0, sizeof o); w_shared_strings(s, t, 2, &o);
+  /* S_Shr: f0 ok f1 size_after f2 len f3 calls_mid f4 calls_end f5 frees_mid f6 frees_after_clear f7 bytes */
+  int same = s[0] == t[0] && s[1] == t[1];
+  VASSERT(o.f0 == 3, "both insertions succeed");
+  VASSERT(o.f1 == 1 && o.f2 == 2 && o.f7.e[0] == t[0] && o.f7.e[1] == t[1], "after removing the first value the second one is intact (same length and bytes, NUL included)");
+  VASSERT(o.f3 == (same ? 2u : 3u), "equal copied strings are stored once: pool + one string block, or pool + two");
+  VASSERT(o.f5 == (same ? 0u : 1u), "the string block is released exactly when its last user disappears");
+  VASSERT(o.f6 == o.f4, "every block is returned at destruction");
+  if (same) VWITNESS("shared"); else VWITNESS("distinct");
+}
